@@ -938,8 +938,10 @@ def rule_d(ctx):
                     operand = call.func.value
                 elif isinstance(call.func, ast.Name) and call.func.id == "int" and len(call.args) == 1:
                     operand = call.args[0]
-                elif norm(call.func) in ("np.array", "np.asarray", "np.asanyarray", "np.ascontiguousarray") and call.args \
+                elif modname == PT and norm(call.func) in ("np.array", "np.asarray", "np.asanyarray", "np.ascontiguousarray") and call.args \
+                        and isinstance(call.args[0], ast.Name) and call.args[0].id in f.params \
                         and any(k.arg == "dtype" and norm(k.value) in INT_TYPES for k in call.keywords):
+                    # in the point module, applied to a parameter (the positions handed in): elsewhere the operand may be a table of integers
                     operand = call.args[0]   # np.array(x, dtype=int) converts like x.astype(int): truncation toward zero
                 if operand is None:
                     continue
